@@ -133,6 +133,10 @@ def build(run, prop=ID):
     sect(run, build_freq, run, prop, E)
     sect(run, build_forward, run, prop, E)
     sect(run, build_clck_handler, run, prop, E)
+    # the per-frame frequency of a hopping transceiver is HoppingParams.resolve(fn): used above through its contract (C07), which is
+    # discharged in this check as well - a defect in the hopping generator that misroutes bursts fails here too
+    from props.pyparts import C07 as _C07
+    sect(run, _C07.build_py, run, prop)
     note_engine(run, E)
     run.assume("transceivers compare by identity (no __eq__ defined: checked on the live classes); trx_list members are pairwise distinct (TRXList.add_trx)")
     run.assume("handle_data_msg's frame: the recipient's burst_drop_amount and the datagram log (its own contract: C10/C18)")
@@ -321,8 +325,14 @@ def build_clck_handler(run, prop, E):
 
 # ------------------------------------------------------------------ witness / replay
 
+C07_KINDS = ("rntable", "fn2gsm_time", "init", "resolve")
+
+
 def witness(o, model):
     t = dict(o.tag or {}) if isinstance(o.tag, dict) else {}
+    if t.get("side") == "py" and t.get("what") in C07_KINDS:
+        from props.pyparts import C07 as _C07
+        return _C07.witness_py(o, model)
     if t.get("what") == "forward":
         n = max(0, min(6, mval(model, N)))
         ids = [mval(model, z3.Select(IDS, i)) for i in range(n)]
@@ -400,6 +410,9 @@ def replay(payload):
     """Native: real FakeTRX objects in a real BurstForwarder; count handle_data_msg calls per recipient."""
     from contracts.py.native import native_trx
     f = payload["inputs"]
+    if isinstance(f, dict) and f.get("side") == "py" and f.get("what") in C07_KINDS:
+        from props.pyparts import C07 as _C07
+        return _C07.replay_py(payload)
     if f.get("what") in ("get_rx_freq", "get_tx_freq"):
         return replay_get_freq(f["what"])
     if f.get("what") == "clck_handler":
